@@ -181,11 +181,11 @@ Qed.
 
 (* reading a document with the re-mapping parser yields a renamed copy of the
    quads the document describes *)
-Lemma parse_relabel_iso d Q : named_only d ->
+Lemma parse_with_relabel_iso d Q : named_only d ->
   (forall q, In q Q <-> exists b, In b d /\ snd q = route (fst b) /\ In (fst q) (snd b)) ->
-  iso Q (parse_doc true d).
+  forall base, iso Q (parse_with true base d).
 Proof.
-  intros Hn HQ. unfold parse_doc. set (base := N.succ (list_max (doc_ids d))).
+  intros Hn HQ base. unfold parse_with.
   destruct (fold_blocks_relabel base d [] {| p_env := ([], 0%N); p_out := [] |} Hn) as [P' [[HE [Hc Hs]] HP']].
   { split; [|split]; simpl.
     - split; [constructor|]. split; [intros x y []|constructor].
@@ -213,6 +213,11 @@ Proof.
     + now apply seteq_map.
     + apply seteq_sym. exact Hs.
 Qed.
+
+Lemma parse_relabel_iso d Q : named_only d ->
+  (forall q, In q Q <-> exists b, In b d /\ snd q = route (fst b) /\ In (fst q) (snd b)) ->
+  iso Q (parse_doc true d).
+Proof. intros Hn HQ. unfold parse_doc. now apply parse_with_relabel_iso. Qed.
 
 Lemma blocks_quads D cs q :
   (exists b, In b (blocks_of lab_std D cs) /\ snd q = route (fst b) /\ In (fst q) (snd b))
